@@ -28,6 +28,7 @@ HARNESS = os.path.join(ROOT, "harness")
 F18A = "F18:served-snapshot-carries-shrunk-last-step-dt"
 F18B = "F18:served-snapshot-torn-by-unlocked-synchronize"
 F19 = "F19:server-started-mid-step-serialises-live-state"
+F20 = "F20:server-closes-connection-descriptor-twice"
 
 
 # ============================================================================ simulations
@@ -46,7 +47,25 @@ def make_sim(rebound, sp):
     sim.rand_seed = sp["seed"] & 0x7FFFFFFF
     integ, N = sp["integ"], sp["N"]
     testp = sp.get("testp", 0)
-    if integ == "sei":
+    opt = sp.get("opt", {})
+    if sp.get("units"):
+        sim.units = ("AU", "yr", "Msun")          # sets G and the persisted python_unit_* fields; before any particle is added
+    if "G" in opt:
+        sim.G = opt["G"]
+    if sp.get("coll"):
+        # a ring of finite-size bodies on crossing orbits: physical collisions, resolved by merging (N decreases)
+        if sp["coll"] in ("tree", "tree-gravity"):
+            sim.configure_box(20.0)
+        sim.add(m=1.0, r=0.005)
+        for i in range(1, N):
+            sim.add(m=1e-5, r=0.03, a=rng.uniform(1.0, 1.4), e=rng.uniform(0, 0.1), f=rng.uniform(0, 6.28), inc=rng.uniform(0, 0.01))
+        if sp["coll"] == "direct":
+            sim.move_to_com()
+        sim.collision = "direct" if sp["coll"] == "direct" else "tree"
+        if sp["coll"] == "tree-gravity":
+            sim.gravity = "tree"
+            sim.opening_angle2 = 0.5
+    elif integ == "sei":
         sim.ri_sei.OMEGA = 1.0
         for i in range(N):
             sim.add(m=1e-9, x=rng.uniform(-1, 1), y=rng.uniform(-1, 1), z=rng.uniform(-0.1, 0.1),
@@ -78,6 +97,15 @@ def make_sim(rebound, sp):
         u = [clib.reb_random_uniform(ctypes.byref(sim), ctypes.c_double(0.0), ctypes.c_double(1.0)) for _ in range(6)]
         g = clib.reb_random_normal(ctypes.byref(sim), ctypes.c_double(1.0))
         sim.add(m=0.0, x=5.0 + u[0], y=u[1] - 0.5, z=0.05 * g, vx=0.1 * (u[2] - 0.5), vy=0.35 + 0.05 * u[3], vz=0.01 * u[4])
+    role = sp.get("role")
+    if role == "single-active" and integ != "sei" and not sp.get("coll"):
+        # one active body, everything else test particles (massless, or with mass and testparticle_type=1)
+        for i in range(1, sim.N):
+            sim.particles[i].m = 0.0 if sp.get("tpt", 0) == 0 else 1e-9
+        sim.N_active = 1
+        sim.testparticle_type = sp.get("tpt", 0)
+    elif role == "zero-mass-active" and integ != "sei" and sim.N > 2:
+        sim.particles[2].m = 0.0                  # a massless body inside the active range
     if testp:
         sim.N_active = N - testp
         # testparticle_type=1 is not implemented for second order variational equations (the library raises)
@@ -88,6 +116,33 @@ def make_sim(rebound, sp):
         sim.ri_whfast.safe_mode = sp.get("safe", 1)
         if sp.get("corrector"):
             sim.ri_whfast.corrector = sp["corrector"]
+        if "coordinates" in opt:
+            sim.ri_whfast.coordinates = opt["coordinates"]
+        if "kernel" in opt:
+            sim.ri_whfast.kernel = opt["kernel"]
+        if "corrector" in opt:
+            sim.ri_whfast.corrector = opt["corrector"]
+        if "keep_unsynchronized" in opt:
+            sim.ri_whfast.keep_unsynchronized = opt["keep_unsynchronized"]
+    if integ == "ias15":
+        if "epsilon" in opt:
+            sim.ri_ias15.epsilon = opt["epsilon"]
+        if "adaptive_mode" in opt:
+            sim.ri_ias15.adaptive_mode = opt["adaptive_mode"]
+        if "min_dt" in opt:
+            sim.ri_ias15.min_dt = opt["min_dt"]
+    if integ == "bs":
+        if "eps" in opt:
+            sim.ri_bs.eps_rel = opt["eps"]
+            sim.ri_bs.eps_abs = opt["eps"]
+        if "max_dt" in opt:
+            sim.ri_bs.max_dt = opt["max_dt"]
+    if integ == "mercurius" and "r_crit_hill" in opt:
+        sim.ri_mercurius.r_crit_hill = opt["r_crit_hill"]
+    if integ == "trace" and "r_crit_hill" in opt:
+        sim.ri_trace.r_crit_hill = opt["r_crit_hill"]
+    if "softening" in opt:
+        sim.softening = opt["softening"]
     if integ == "saba":
         sim.ri_saba.safe_mode = sp.get("safe", 1)
     if integ == "eos":
@@ -95,8 +150,8 @@ def make_sim(rebound, sp):
     if integ == "mercurius":
         sim.ri_mercurius.safe_mode = sp.get("safe", 1)
     if integ == "janus":
-        sim.ri_janus.scale_pos = 1e-16
-        sim.ri_janus.scale_vel = 1e-16
+        sim.ri_janus.scale_pos = opt.get("scale_pos", 1e-16)
+        sim.ri_janus.scale_vel = opt.get("scale_vel", 1e-16)
     var = sp.get("var")
     if var == "1st":
         v = sim.add_variation()
@@ -112,7 +167,115 @@ def make_sim(rebound, sp):
         v3.vary(1, "a")
     elif var == "megno":
         sim.init_megno(seed=sp["seed"] & 0xFFFF)
+    install_callbacks(sim, sp)
     return sim
+
+
+def install_callbacks(sim, sp, heartbeat=False):
+    """function pointers are not part of a serialisation: (re)install what the spec asks for — after make_sim, copy(), load"""
+    keep = []
+    if sp.get("coll"):
+        sim.collision_resolve = "merge"
+    if sp.get("force"):
+        k = 1e-3
+
+        def drag(simp):                      # velocity dependent additional force on the real particles (Python callable)
+            s_ = simp.contents
+            ps = s_.particles
+            for i in range(1, s_.N - s_.N_var):
+                ps[i].ax -= k * ps[i].vx
+                ps[i].ay -= k * ps[i].vy
+                ps[i].az -= k * ps[i].vz
+        sim.additional_forces = drag
+        sim.force_is_velocity_dependent = 1
+        keep.append(drag)
+    if heartbeat:
+        cnt = [0]
+
+        def hb(simp):                        # read-only heartbeat: runs inside the integrator's critical section
+            cnt[0] += 1
+            _ = simp.contents.t
+        sim.heartbeat = hb
+        keep.append(hb)
+        sim._c19_hbcount = cnt
+    sim._c19_keep = keep
+
+
+def dims_of(tag, sp, jp=None):
+    """the cross-cutting dimensions (BUILDERS-deepen.md) a case exercises, derived from its spec"""
+    jp = jp or {}
+    opt = sp.get("opt", {})
+    d = set()
+    if sp.get("testp"):
+        d.add("roles: N_active < N")
+        d.add("roles: testparticle_type=%d" % (0 if sp.get("var") == "2nd" else sp.get("tpt", 0)))
+    if sp.get("role") == "single-active":
+        d.add("roles: single active body")
+    if sp.get("role") == "zero-mass-active":
+        d.add("roles: zero-mass active body")
+    if sp.get("var"):
+        d.add("variational: " + sp["var"])
+        if sp.get("testp") or sp.get("role"):
+            d.add("variational: with test particles")
+    if sp.get("safe", 1) == 0:
+        d.add("options: safe_mode=0")
+    if opt.get("keep_unsynchronized"):
+        d.add("options: keep_unsynchronized=1")
+    for k_, nm in (("coordinates", "whfast coordinates"), ("kernel", "whfast kernel"), ("corrector", "whfast corrector"), ("G", "G != 1"),
+                   ("softening", "softening != 0")):
+        if k_ in opt:
+            d.add("options: " + nm)
+    if sp.get("corrector"):
+        d.add("options: whfast corrector")
+    if sp["integ"] == "ias15" and (set(opt) & {"epsilon", "adaptive_mode", "min_dt"}):
+        d.add("options: ias15 adaptive options")
+    if sp["integ"] == "bs" and (set(opt) & {"eps", "max_dt"}):
+        d.add("options: bs options")
+    if sp["integ"] in ("mercurius", "trace") and "r_crit_hill" in opt:
+        d.add("options: mercurius/trace r_crit_hill")
+    if sp["integ"] == "janus" and opt.get("scale_pos") != opt.get("scale_vel"):
+        d.add("options: unequal JANUS scales")
+    if sp.get("units"):
+        d.add("options: units set")
+    if sp["dt"] < 0:
+        d.add("time: dt < 0")
+    d.add("time: exact_finish_time=%d" % sp.get("eft", 1))
+    if len(sp["tmax"]) >= 8:
+        d.add("time: short bursts of integrate()")
+    elif len(sp["tmax"]) > 1:
+        d.add("time: integrate() split into several calls")
+    else:
+        d.add("time: one long integrate() call")
+    if sp.get("force"):
+        d.add("callbacks: additional_forces (velocity dependent)")
+    if jp.get("hb"):
+        d.add("callbacks: heartbeat together with the server")
+    if sp.get("coll"):
+        d.add("histories: collisions + merges (N changes)")
+        if sp["coll"] != "direct":
+            d.add("histories: tree code")
+    if sp.get("enc"):
+        d.add("histories: close encounters")
+    if sp.get("sa"):
+        d.add("histories: Simulationarchive auto-snapshots in the same run")
+    if sp["N"] >= 1024:
+        d.add("scale: N > 1024")
+    st = jp.get("start")
+    if st == "paused":
+        d.add("server: started while paused, resumed by the space key")
+    if st == "during":
+        d.add("server: started from another thread while integrating")
+    if jp.get("keyboard"):
+        d.add("server: /keyboard pause/step/resume racing with requests")
+        if "quit" in jp["keyboard"]:
+            d.add("server: /keyboard quit, integrate() re-entered")
+    if jp.get("restart"):
+        d.add("server: start/stop cycles with requests in flight")
+    if tag == "multi-server":
+        d.add("server: several servers and simulations in one process")
+    if tag == "no-requests":
+        d.add("server: idle server, no request")
+    return sorted(d)
 
 
 def integ_to(sim, sp, tmax):
@@ -168,6 +331,15 @@ class Fmt:
         self.psize = psize
         P = rebound.Particle
         self.ptr_ranges = [(getattr(P, n).offset, getattr(P, n).offset + getattr(P, n).size) for n in ("c", "ap", "_sim")]
+        # struct padding (after the 32-bit hash): never written, holds whatever the allocator returned
+        cov = sorted((getattr(P, n).offset, getattr(P, n).offset + getattr(P, n).size) for n, _ in P._fields_)
+        pos = 0
+        for a_, e_ in cov:
+            if a_ > pos:
+                self.ptr_ranges.append((pos, a_))
+            pos = max(pos, e_)
+        if pos < psize:
+            self.ptr_ranges.append((pos, psize))
         self.end_type = [t for t, n in self.names.items() if n == "end"][0]
         self.walltime = {t for t, n in self.names.items() if "walltime" in n}
         self.id = {n: t for t, n in self.names.items()}
@@ -275,10 +447,175 @@ def progress(*a):
     print("C19W %7.2f" % (time.time() - _T0), *a, file=sys.stderr, flush=True)
 
 
+def attach_archive(sim, sp, path):
+    """Simulationarchive auto-snapshots every sp['sa'] steps: reb_simulationarchive_heartbeat then serialises from inside the
+    integration loop (rebound.c:856, under the mutex) and once more in the epilogue (outside it)"""
+    if sp.get("sa"):
+        sim.save_to_file(path, step=int(sp["sa"]), delete_file=True)
+
+
+class Unit:
+    """one simulation with its own server, client thread and integration (the worker runs one, `multi-server` several)"""
+
+    def __init__(self, rebound, sp, jp, outdir, shim, offs):
+        self.rebound, self.sp, self.jp, self.out, self.shim = rebound, sp, jp, outdir, shim
+        os.makedirs(outdir, exist_ok=True)
+        self.sim = make_sim(rebound, sp)
+        if jp.get("hb"):
+            install_callbacks(self.sim, sp, heartbeat=True)
+        attach_archive(self.sim, sp, os.path.join(outdir, "archive.bin"))
+        self.port = None
+        self.ready = threading.Event()
+        self.down = threading.Event()          # the server is being stopped / is stopped on purpose (restart scenario)
+        self.done = threading.Event()
+        self.stop = threading.Event()
+        self.bodies, self.errors = [], []
+        self.stops = []                        # (t_begin, t_end) of stop_server calls
+        self.crng = SplitMix(jp["delay_seed"] * 7919 + 13)
+        self.integrate_calls = 0
+        self.ebadf = 0
+        if shim:
+            shim.c19_register(ctypes.addressof(self.sim) + offs["server_data"], offs["mutex"], offs["need_copy"])
+
+    def start_server(self, retries):
+        sim = self.sim
+        for attempt in range(retries):
+            self.port = free_port()             # bind(0): a port that is free right now
+            progress("start_server attempt", attempt, "port", self.port)
+            sim.start_server(port=self.port)
+            # reb_simulation_start_server waits at most 1 s for `ready`; on a loaded machine the thread may need longer
+            deadline = time.time() + 15
+            while sim._server_data and sim._server_data.contents.ready == 0 and time.time() < deadline:
+                time.sleep(0.005)
+            if sim._server_data and sim._server_data.contents.ready == 1:
+                self.down.clear()
+                self.ready.set()
+                return True
+            progress("server not ready (ready=%s): stopping" % (sim._server_data.contents.ready if sim._server_data else None))
+            try:
+                sim.stop_server()
+            except Exception:
+                pass
+        return False
+
+    def stop_server(self):
+        t0 = time.time()
+        self.down.set()
+        self.ready.clear()
+        self.sim.stop_server()
+        self.stops.append((t0, time.time()))
+
+    def client(self):
+        jp = self.jp
+        while not self.stop.is_set() and len(self.bodies) < jp["max_bodies"]:
+            port = self.port
+            if port is None:
+                time.sleep(0.0002)
+                continue
+            was_ready = self.ready.is_set() and not self.down.is_set()
+            t0 = time.time()
+            try:
+                b = http_get(port, "/simulation")
+            except OSError as e:
+                if not was_ready or self.down.is_set() or not self.ready.is_set():
+                    time.sleep(0.0003)        # nobody listens (yet / any more): expected in the late-start and restart scenarios
+                    continue
+                if getattr(e, "errno", None) == 9 and self.ebadf < 20:
+                    # EBADF on OUR socket: the server thread's second close() of its connection descriptor (server.c:454-455,
+                    # fclose then close) hit the descriptor number this thread had just been given (finding F20)
+                    self.ebadf += 1
+                    continue
+                self.errors.append(repr(e))
+                break
+            self.bodies.append((self.done.is_set(), b, t0, time.time()))
+            time.sleep(self.crng.uniform(0, jp["client_sleep_ms"]) / 1000.0)
+
+    def integrate_all(self, between=None):
+        sim, sp, shim = self.sim, self.sp, self.shim
+        sign = 1 if sp["dt"] > 0 else -1
+        if shim:
+            shim.c19_set_integrator()
+        for k, tmax in enumerate(sp["tmax"]):
+            if between:
+                between(k, "before")
+            while True:
+                progress("integrate call", k, "to", tmax)
+                self.integrate_calls += 1
+                if shim:
+                    shim.c19_mark(0)
+                integ_to(sim, sp, tmax)
+                if shim:
+                    shim.c19_mark(1)
+                # /keyboard/81 ('Q') makes integrate() return early with status USER: enter it again, as a user would
+                if sim._status == 5 and (tmax - sim.t) * sign > 1e-12 * abs(tmax) and self.integrate_calls < 200:
+                    continue
+                break
+            if between:
+                between(k, "after")
+        self.done.set()
+
+    def keyboard(self, plan):
+        """pause / single steps / resume (and quit) through the server while the client keeps fetching"""
+        sim = self.sim
+
+        def key(k):
+            try:
+                http_get(self.port, "/keyboard/%d" % k)
+                return True
+            except OSError as e:
+                self.errors.append("keyboard: " + repr(e))
+                return False
+        try:
+            time.sleep(self.crng.uniform(2, 15) / 1000.0)
+            for rnd in range(plan.get("rounds", 2)):
+                if self.done.is_set():
+                    break
+                key(32)                                   # space: RUNNING -> PAUSED (no effect in other states)
+                time.sleep(self.crng.uniform(1, 6) / 1000.0)
+                if sim._status == -3:
+                    for j in range(self.crng.randint(1, 4)):
+                        key(264)                          # arrow down: one step, then paused again
+                        time.sleep(self.crng.uniform(1, 5) / 1000.0)
+                    deadline = time.time() + 5
+                    while sim._status != -3 and time.time() < deadline and not self.done.is_set():
+                        time.sleep(0.001)
+                    if sim._status == -3:
+                        key(32)                           # resume
+                time.sleep(self.crng.uniform(3, 20) / 1000.0)
+                if plan.get("quit") and not self.done.is_set():
+                    key(81)                               # 'Q': status USER, integrate() returns; integrate_all re-enters
+                    time.sleep(self.crng.uniform(3, 20) / 1000.0)
+        finally:
+            # never leave the simulation paused
+            for _ in range(200):
+                if self.done.is_set():
+                    break
+                if sim._status == -3:
+                    sim._status = -1
+                time.sleep(0.005)
+
+    def finish(self, res):
+        rebound, sim, out = self.rebound, self.sim, self.out
+        with open(os.path.join(out, "final.bin"), "wb") as f:
+            f.write(sim_bytes(rebound, sim))
+        flags = []
+        for i, (after, b, t0, t1) in enumerate(self.bodies):
+            with open(os.path.join(out, "body%04d.bin" % i), "wb") as f:
+                f.write(b)
+            flags.append(any(t0 <= e and s_ <= t1 + 0.002 for s_, e in self.stops))
+        res.update(ok=True, nbodies=len(self.bodies), errors=self.errors, steps_done=int(sim.steps_done), t=sim.t,
+                   near_stop=flags, integrate_calls=self.integrate_calls, client_ebadf=self.ebadf, stop_cycles=len(self.stops),
+                   heartbeat_calls=(sim._c19_hbcount[0] if hasattr(sim, "_c19_hbcount") else None),
+                   bodies_during_integration=sum(1 for x in self.bodies if not x[0]))
+        json.dump(res, open(os.path.join(out, "result.json"), "w"))
+
+
 def worker(argv):
-    """python c19.py --worker <job.json>: runs one scenario, writes <out>/result.json, bodies, final state, trace"""
+    """python c19.py --worker <job.json>: runs one scenario, writes <out>/result.json, bodies, final state, trace
+    (multi-server: one sub-directory u<i>/ per simulation)"""
     job = json.load(open(argv[0]))
-    progress("worker start", job.get("start", "before"), job["spec"]["integ"], "N", job["spec"]["N"])
+    specs = job.get("specs") or [job["spec"]]
+    progress("worker start", job.get("start", "before"), [sp["integ"] for sp in specs], "N", [sp["N"] for sp in specs])
     sys.path.insert(0, job["scratch"])
     import warnings
     warnings.filterwarnings("ignore")
@@ -290,117 +627,116 @@ def worker(argv):
     devnull = os.open(os.devnull, os.O_WRONLY)               # the server printf()s
     os.dup2(devnull, 1)
     progress("rebound imported")
-    shim = ctypes.CDLL(job["shim"]) if job.get("shim") else None
-    sp = job["spec"]
-    sim = make_sim(rebound, sp)
-    progress("simulation built")
-    res = {"ok": False}
     mode = job.get("start", "before")       # before | paused | during : when reb_simulation_start_server is called
     use_server = job.get("server", True)
+    multi = len(specs) > 1
+    shim = ctypes.CDLL(job["shim"]) if (job.get("shim") and use_server and not multi and not job.get("restart")) else None
+    res = {"ok": False}
 
     def fail(msg):
         progress("FAIL", msg)
         res["infra"] = msg
-        json.dump(res, open("result.json", "w"))
+        json.dump(res, open(os.path.join(out, "result.json"), "w"))
         sys.stdout.flush()
         os._exit(3)
 
-    if shim and use_server:
+    if shim:
         shim.c19_register.argtypes = [ctypes.c_void_p, ctypes.c_long, ctypes.c_long]
         shim.c19_delays.argtypes = [ctypes.c_uint64, ctypes.c_uint, ctypes.c_uint]
         shim.c19_count.restype = ctypes.c_long
         shim.c19_len.restype = ctypes.c_long
         shim.c19_delays(job["delay_seed"], job["delay_prob"], job["delay_max_us"])
-        # &r->server_data: the shim re-reads it at every event, the server may not exist yet
-        shim.c19_register(ctypes.addressof(sim) + job["offs"]["server_data"], job["offs"]["mutex"], job["offs"]["need_copy"])
-    port_box = {}
-    server_ready = threading.Event()
-    integ_done = threading.Event()
-
-    def start_server(retries):
-        for attempt in range(retries):
-            port_box["p"] = free_port()           # bind(0): a port that is free right now
-            progress("start_server attempt", attempt, "port", port_box["p"])
-            sim.start_server(port=port_box["p"])
-            # reb_simulation_start_server waits at most 1 s for `ready`; on a loaded machine the thread may need longer
-            deadline = time.time() + 15
-            while sim._server_data and sim._server_data.contents.ready == 0 and time.time() < deadline:
-                time.sleep(0.005)
-            if sim._server_data and sim._server_data.contents.ready == 1:
-                server_ready.set()
-                progress("server ready")
-                return True
-            progress("server not ready (ready=%s): stopping" % (sim._server_data.contents.ready if sim._server_data else None))
-            try:
-                sim.stop_server()
-            except Exception:
-                pass
-        return False
-
-    bodies, errors = [], []
-    stop = threading.Event()
-    crng = SplitMix(job["delay_seed"] * 7919 + 13)
-
-    def client():
-        while not stop.is_set() and len(bodies) < job["max_bodies"]:
-            port = port_box.get("p")
-            if port is None:
-                time.sleep(0.0002)
-                continue
-            was_ready = server_ready.is_set()
-            try:
-                b = http_get(port, "/simulation")
-            except OSError as e:
-                if not was_ready:           # nobody listens yet: the server is being started right now
-                    time.sleep(0.0002)
-                    continue
-                errors.append(repr(e))
-                break
-            bodies.append((integ_done.is_set(), b))
-            time.sleep(crng.uniform(0, job["client_sleep_ms"]) / 1000.0)
-
-    def integrate_all():
-        if shim and use_server:
-            shim.c19_set_integrator()
-        for k, tmax in enumerate(sp["tmax"]):
-            progress("integrate call", k, "to", tmax)
-            if shim and use_server:
-                shim.c19_mark(0)
-            integ_to(sim, sp, tmax)
-            if shim and use_server:
-                shim.c19_mark(1)
-        integ_done.set()
-
-    th = threading.Thread(target=client) if (use_server and job["max_bodies"] > 0) else None
+    units = [Unit(rebound, sp, dict(job, delay_seed=job["delay_seed"] + 17 * i), out if not multi else os.path.join(out, "u%d" % i),
+                  shim, job["offs"]) for i, sp in enumerate(specs)]
+    progress("simulations built")
     t0 = time.time()
+    if multi:
+        # several simulations, each with its own server (own port), client and integration thread, in one process
+        for u in units:
+            if not u.start_server(6):
+                fail("could not start a server on a free port")
+        cls = [threading.Thread(target=u.client) for u in units]
+        its = [threading.Thread(target=u.integrate_all) for u in units]
+        for t in cls + its:
+            t.start()
+        for t in its:
+            t.join(60)
+        if any(t.is_alive() for t in its):
+            for u in units:
+                u.sim._status = 1
+            fail("integration did not finish")
+        for u in units:
+            u.stop.set()
+        for t in cls:
+            t.join(30)
+        if any(t.is_alive() for t in cls):
+            fail("client thread did not finish")
+        for u in units:
+            u.sim.stop_server()
+            r_u = {"ok": False}
+            u.finish(r_u)
+        res.update(ok=True, units=len(units), errors=[e for u in units for e in u.errors], wall=time.time() - t0)
+        json.dump(res, open(os.path.join(out, "result.json"), "w"))
+        return 0
+    u = units[0]
+    sim, sp = u.sim, u.sp
+    th = threading.Thread(target=u.client) if (use_server and job["max_bodies"] > 0) else None
+    kb = None
     if not use_server:
-        integrate_all()
+        u.integrate_all()
+    elif job.get("restart"):
+        # the server is started before and stopped after every integrate() call, the client never stops knocking:
+        # requests are in flight when reb_simulation_stop_server closes the socket and cancels the server thread
+        if th:
+            th.start()
+
+        def between(k, when):
+            if when == "before":
+                if not u.start_server(3):
+                    fail("could not start the server on a free port (restart cycle %d)" % k)
+            else:
+                time.sleep(u.crng.uniform(0, 6.0) / 1000.0)
+                progress("stop_server, cycle", k)
+                u.stop_server()
+                time.sleep(u.crng.uniform(0, 3.0) / 1000.0)
+        u.integrate_all(between)
     elif mode == "before":
-        if not start_server(6):
+        if not u.start_server(6):
             fail("could not start the server on a free port")
         if th:
             th.start()
-        integrate_all()
+        if job.get("keyboard"):
+            it = threading.Thread(target=u.integrate_all)
+            it.start()
+            kb = threading.Thread(target=u.keyboard, args=(job["keyboard"],))
+            kb.start()
+            it.join(60)
+            if it.is_alive():
+                sim._status = 1
+                fail("integration did not finish (keyboard scenario)")
+            kb.join(10)
+        else:
+            u.integrate_all()
     else:
         if mode == "paused":
             sim._status = -3                      # REB_STATUS_PAUSED: integrate() idles inside reb_check_exit
-        it = threading.Thread(target=integrate_all)
+        it = threading.Thread(target=u.integrate_all)
         it.start()
         if mode == "during" and th:
             th.start()                            # the client is already knocking when the server comes up
         time.sleep(job.get("start_delay_ms", 10.0) / 1000.0)
-        res["integ_done_before_start"] = integ_done.is_set()
+        res["integ_done_before_start"] = u.done.is_set()
         progress("late start of the server, mode", mode)
-        if not start_server(1):
+        if not u.start_server(1):
             sim._status = -1
             fail("could not start the server on a free port (late start)")
         if mode == "paused":
             if th:
                 th.start()
-            time.sleep(crng.uniform(0, 8.0) / 1000.0)
+            time.sleep(u.crng.uniform(0, 8.0) / 1000.0)
             progress("resume with the space key")
             try:
-                http_get(port_box["p"], "/keyboard/32")    # space: resume (server.c:353-357)
+                http_get(u.port, "/keyboard/32")    # space: resume (server.c:353-357)
             except OSError as e:
                 sim._status = -1
                 fail("resume request failed: %r" % (e,))
@@ -409,16 +745,16 @@ def worker(argv):
             sim._status = 1                        # let the loop leave at the next reb_check_exit
             fail("integration did not finish")
     wall = time.time() - t0
-    progress("integration finished, bodies so far", len(bodies))
+    progress("integration finished, bodies so far", len(u.bodies))
     if mode != "before" and th and job.get("linger_ms"):
         time.sleep(job["linger_ms"] / 1000.0)
-    stop.set()
+    u.stop.set()
     if th:
         th.join(30)
         if th.is_alive():
             fail("client thread did not finish")
     progress("client joined")
-    if shim and use_server:
+    if shim:
         shim.c19_stop()
         shim.c19_dump(os.path.join(out, "trace.txt").encode())
         res["counts"] = {n: shim.c19_count(i) for i, n in enumerate(
@@ -426,18 +762,13 @@ def worker(argv):
              "iUnlock", "iEpiSync", "iLeave", "sLock", "sSerBegin", "sSerEnd", "sUnlock", "xStart"])}
         res["late_spins"] = shim.c19_count(-1)
         res["foreign_ser"] = shim.c19_count(-2)
-    if use_server:
+        res["double_close"] = shim.c19_count(-3)
+    if use_server and sim._server_data:
         progress("stop_server")
         sim.stop_server()
     progress("writing results")
-    with open("final.bin", "wb") as f:
-        f.write(sim_bytes(rebound, sim))
-    for i, (after, b) in enumerate(bodies):
-        with open("body%04d.bin" % i, "wb") as f:
-            f.write(b)
-    res.update(ok=True, nbodies=len(bodies), errors=errors, wall=wall, steps_done=int(sim.steps_done), t=sim.t,
-               bodies_during_integration=sum(1 for after, b in bodies if not after))
-    json.dump(res, open("result.json", "w"))
+    res["wall"] = wall
+    u.finish(res)
     return 0
 
 
@@ -603,15 +934,37 @@ def parallel_main(argv):
     return 0
 
 
+APPLICABLE_DIMENSIONS = [
+    "roles: N_active < N", "roles: testparticle_type=0", "roles: testparticle_type=1", "roles: single active body",
+    "roles: zero-mass active body",
+    "variational: 1st", "variational: 2nd", "variational: megno", "variational: with test particles",
+    "options: safe_mode=0", "options: keep_unsynchronized=1", "options: whfast coordinates", "options: whfast kernel",
+    "options: whfast corrector", "options: ias15 adaptive options", "options: bs options", "options: mercurius/trace r_crit_hill",
+    "options: G != 1", "options: softening != 0", "options: unequal JANUS scales", "options: units set",
+    "time: dt < 0", "time: exact_finish_time=0", "time: exact_finish_time=1", "time: short bursts of integrate()",
+    "time: integrate() split into several calls", "time: one long integrate() call",
+    "callbacks: additional_forces (velocity dependent)", "callbacks: heartbeat together with the server",
+    "histories: collisions + merges (N changes)", "histories: tree code", "histories: close encounters",
+    "histories: Simulationarchive auto-snapshots in the same run", "histories: copy / save / load mid-run",
+    "histories: restore from an archive snapshot, in parallel threads",
+    "scale: N > 1024",
+    "server: started while paused, resumed by the space key", "server: started from another thread while integrating",
+    "server: /keyboard pause/step/resume racing with requests", "server: /keyboard quit, integrate() re-entered",
+    "server: start/stop cycles with requests in flight", "server: several servers and simulations in one process",
+    "server: idle server, no request",
+]
+
 STAT_KEYS = ("bodies", "incomplete", "not_boundary", "boundary_exact", "boundary_prologue_variant", "load_fail",
              "continued_bitwise", "not_boundary_state", "F18a", "F18b", "F19", "not_continuable", "during_integration", "runaway",
              "exact_but_save_load_not_continuable(C05)")
 
 
-def reference_run(rebound, fmt, sp, with_heartbeat):
+def reference_run(rebound, fmt, sp, with_heartbeat, archive=None):
     """serverless run of the same spec; with_heartbeat: also the serialisation at every step boundary
     (heartbeat is called after each step) and after every integrate() call"""
     sim = make_sim(rebound, sp)
+    if archive:
+        attach_archive(sim, sp, archive)
     table = {}      # steps_done -> list of (kind, canon, call index)
     clib = rebound.clibrebound
     call = [0]
@@ -628,6 +981,10 @@ def reference_run(rebound, fmt, sp, with_heartbeat):
             table.setdefault(int(sim.steps_done), []).append(("E", fmt.canon(sim_bytes(rebound, sim)), k, sim.t))
         ends.append(int(sim.steps_done))
     return sim_bytes(rebound, sim), table, ends
+
+
+class LoadError(Exception):
+    pass
 
 
 class Runaway(Exception):
@@ -660,7 +1017,11 @@ def continue_to_end(rebound, fmt, b, sp, tmpdir, restore_dt=None, limit_s=30.0):
     """load a served body and continue it through the remaining integrate() calls.
     restore_dt: replay what the uninterrupted run does at the end of the call the snapshot was taken in
     (epilogue rebound.c:880-884: synchronize, dt = last_full_dt) — used to decide whether a mismatch is F18 only"""
-    s = load_bytes(rebound, b, tmpdir)
+    try:
+        s = load_bytes(rebound, b, tmpdir)
+    except Exception as e:
+        raise LoadError(repr(e))
+    install_callbacks(s, sp)
     s._status = -1          # a snapshot served while PAUSED carries status PAUSED (it is serialised); status is not compared
     sign = 1 if sp["dt"] > 0 else -1
     first = True
@@ -688,9 +1049,31 @@ def analyse_bodies(c, rebound, fmt, sp, res, tmpdir, stats, tag, racy=None):
     """search (ii): every served body against the reference run"""
     out = res["out"]
     tr0 = time.time()
-    final0, _, _ = reference_run(rebound, fmt, sp, False)
+    final0, _, _ = reference_run(rebound, fmt, sp, False, archive=os.path.join(tmpdir, "ref0.bin"))
     limit_s = 3.0 + 8.0 * (time.time() - tr0)      # a continuation is at most the whole run
-    final1, table, ends = reference_run(rebound, fmt, sp, True)
+    final1, table, ends = reference_run(rebound, fmt, sp, True, archive=os.path.join(tmpdir, "ref1.bin"))
+    if sp.get("sa"):
+        # two writers of serialisations in one run (archive heartbeat + server): the archive must be the serverless one
+        try:
+            A = rebound.Simulationarchive(os.path.join(out, "archive.bin"))
+            R = rebound.Simulationarchive(os.path.join(tmpdir, "ref0.bin"))
+            na, nr = len(A), len(R)
+            bad = None
+            if na != nr:
+                bad = "number of snapshots %d vs %d" % (na, nr)
+            else:
+                for i in range(na):
+                    x = fmt.canon(sim_bytes(rebound, A[i]), MASK)
+                    y = fmt.canon(sim_bytes(rebound, R[i]), MASK)
+                    if x is None or y is None or Fmt.diff(x, y):
+                        bad = "snapshot %d differs in %s" % (i, (Fmt.diff(x, y)[:6] if x and y else "unparsable"))
+                        break
+            stats["archive_snapshots_compared"] = stats.get("archive_snapshots_compared", 0) + na
+        except Exception as e:
+            bad = "archive unreadable: %r" % (e,)
+        if bad:
+            c.violation("archive-differs-when-serving", "Simulationarchive written while the server answered requests differs from the one "
+                        "written without server (%s): %s" % (sp["integ"], bad), dict(spec=sp, scenario=tag))
     F0 = fmt.canon(final0, MASK)
     F1 = fmt.canon(final1, MASK)
     Fs = fmt.canon(open(os.path.join(out, "final.bin"), "rb").read(), MASK)
@@ -721,6 +1104,10 @@ def analyse_bodies(c, rebound, fmt, sp, res, tmpdir, stats, tag, racy=None):
         c.count((tag, sp["integ"], "body", i % 4))
         brep = dict(rep, body_index=i, body_len=len(b), body_sha=hashlib.sha1(b).hexdigest())
         B = fmt.canon(b, MASK)
+        if B is None and i < len(res.get("near_stop", [])) and res["near_stop"][i]:
+            # reb_simulation_stop_server cancelled the server thread while it was writing this response
+            stats["truncated_by_stop_server"] = stats.get("truncated_by_stop_server", 0) + 1
+            continue
         if B is None:
             stats["incomplete"] += 1
             c.violation("served-body-incomplete", "HTTP /simulation body is not a complete snapshot (%d bytes, %s)" % (len(b), sp["integ"]), brep)
@@ -746,7 +1133,7 @@ def analyse_bodies(c, rebound, fmt, sp, res, tmpdir, stats, tag, racy=None):
         diffs = [Fmt.diff({k: v for k, v in cd[1].items() if k not in MASK}, B) for cd in cands]
         best = min(diffs, key=len)
         exact = any(len(x) == 0 for x in diffs)
-        pro = any(set(x) <= {"dt_last_done"} for x in diffs)
+        pro = any(set(x) <= {"dt_last_done", "exact_finish_time"} for x in diffs)
         if exact:
             stats["boundary_exact"] += 1
         elif pro:
@@ -776,13 +1163,19 @@ def analyse_bodies(c, rebound, fmt, sp, res, tmpdir, stats, tag, racy=None):
         try:
             fin = fmt.canon(continue_to_end(rebound, fmt, b, sp, tmpdir, limit_s=limit_s), MASK)
             dd = Fmt.diff(F0, fin) if fin is not None else ["#unparsable"]
+            if sp.get("sa"):
+                # the continued snapshot has no archive file attached, so its archive bookkeeping does not advance
+                dd = [k for k in dd if not k.startswith("simulationarchive_")]
         except Runaway as e:
             stats["runaway"] += 1
             dd = ["#runaway: " + str(e)[:120]]
-        except Exception as e:
+        except LoadError as e:
             stats["load_fail"] += 1
-            c.violation("served-body-not-loadable", "served snapshot cannot be loaded/continued: %r" % (e,), brep)
+            c.violation("served-body-not-loadable", "served snapshot cannot be loaded: %r" % (e,), brep)
             continue
+        except Exception as e:
+            # e.g. "Integration is not making progress" when the served dt is one ulp (F18a in its extreme form)
+            dd = ["#exception: " + repr(e)[:120]]
         if not dd:
             stats["continued_bitwise"] += 1
             continue
@@ -797,9 +1190,17 @@ def analyse_bodies(c, rebound, fmt, sp, res, tmpdir, stats, tag, racy=None):
             if edt[0] is not None:
                 try:
                     fin2 = fmt.canon(continue_to_end(rebound, fmt, b, sp, tmpdir, restore_dt=edt[0], limit_s=limit_s), MASK)
-                    explained = fin2 is not None and not Fmt.diff(F0, fin2) and dt != edt[0]
-                except Runaway:
+                    d2 = Fmt.diff(F0, fin2) if fin2 is not None else ["#"]
+                    if sp.get("sa"):
+                        d2 = [k for k in d2 if not k.startswith("simulationarchive_")]
+                    explained = (not d2) and dt != edt[0]
+                except Exception:
                     explained = False
+            if not explained and not exact and dt != edt[0] and edt[0] is not None and set(best) <= dtlike:
+                # the snapshot IS the boundary state except for dt-like fields, at a last-step boundary, with a dt that is not the
+                # one the run has after that call: F18a by its signature, whatever a continuation does (for collision/tree
+                # configurations continuing a saved state is not bitwise anyway: C05/C13)
+                explained = True
         if not explained and exact:
             # the body IS the reference run's boundary serialisation, bit for bit: that continuing a saved state does not
             # reproduce the run is then a defect of save/load (C05), not of the server protocol
@@ -846,6 +1247,84 @@ def mutants(tokens, rng):
     return out
 
 
+# option dimensions that can be folded onto an ordinary scenario: name -> (integrators it applies to, function(rng, sp))
+def _fold_table():
+    fixed = ("whfast", "saba", "eos", "mercurius", "leapfrog", "janus", "sei")
+
+    def neg(rng, sp):
+        sp["dt"] = -abs(sp["dt"])
+        sp["tmax"] = [-abs(t) for t in sp["tmax"]]
+
+    def opt(**kw):
+        def f(rng, sp):
+            o = sp.setdefault("opt", {})
+            for k, v in kw.items():
+                o[k] = rng.choice(v) if isinstance(v, list) else v
+        return f
+
+    def small_force(rng, sp):
+        sp["force"] = 1
+        sp["N"] = min(sp["N"], 9)
+
+    def keep_unsync(rng, sp):
+        sp["safe"] = 0
+        sp.setdefault("opt", {})["keep_unsynchronized"] = 1
+
+    def role(name):
+        def f(rng, sp):
+            sp["role"] = name
+            sp["tpt"] = rng.choice([0, 1])
+            sp.pop("testp", None)
+        return f
+
+    def units(rng, sp):
+        sp["units"] = 1
+        sp["dt"] = sp["dt"] / 6.283 if sp["dt"] > 0 else sp["dt"] / 6.283
+        sp["tmax"] = [t / 6.283 for t in sp["tmax"]]
+    return [
+        ("dt<0", ("ias15", "whfast", "saba", "eos", "mercurius", "bs", "leapfrog", "janus", "sei"), neg),
+        ("force", ("leapfrog", "ias15", "whfast"), small_force),
+        ("coords", ("whfast",), opt(coordinates=["democraticheliocentric", "whds", "barycentric"])),
+        ("kernel", ("whfast",), opt(kernel=["modifiedkick", "composition", "lazy"])),
+        ("corrector", ("whfast",), opt(corrector=[3, 5, 7, 11, 17])),
+        ("keep_unsync", ("whfast",), keep_unsync),
+        ("ias15opt", ("ias15",), opt(epsilon=[1e-7, 1e-10], adaptive_mode=[0, 1, 2], min_dt=1e-4)),
+        ("bsopt", ("bs",), opt(eps=[1e-6, 1e-10], max_dt=0.4)),
+        ("rcrit", ("mercurius", "trace"), opt(r_crit_hill=[2.0, 4.0])),
+        ("G", ("ias15", "whfast", "saba", "eos", "leapfrog", "bs"), opt(G=[0.7, 1.3])),
+        ("softening", ("ias15", "whfast", "leapfrog", "eos", "saba"), opt(softening=[1e-3, 1e-2])),
+        ("janus-scales", ("janus",), opt(scale_pos=1e-16, scale_vel=1e-15)),
+        ("units", ("whfast", "ias15", "leapfrog"), units),
+        ("single-active", ("ias15", "whfast", "leapfrog", "eos", "bs"), role("single-active")),
+        ("zero-mass-active", ("ias15", "whfast", "leapfrog", "eos", "saba"), role("zero-mass-active")),
+    ]
+
+
+def fold_dims(rng, items, per_item=2):
+    """distribute every foldable dimension over the given (tag, spec, jobparams) scenarios (at most `per_item` each, compatible
+    integrator, no two that touch the same thing); returns the names that found no host"""
+    table = _fold_table()
+    rng.shuffle(table)
+    load = [0] * len(items)
+    left = []
+    for name, integs, fn in table:
+        hosts = [i for i, (tag, sp, jp) in enumerate(items) if sp["integ"] in integs and load[i] < per_item
+                 and not sp.get("var") and not sp.get("enc") and not sp.get("coll")
+                 and not (name in ("single-active", "zero-mass-active") and (sp.get("testp") or sp.get("role")))
+                 and not (name == "units" and "G" in sp.get("opt", {})) and not (name == "G" and sp.get("units"))
+                 and not (name in ("kernel", "corrector") and sp.get("opt", {}).get("coordinates"))
+                 and not (name == "coords" and (set(sp.get("opt", {})) & {"kernel", "corrector"} or sp.get("corrector")))
+                 and not (name == "keep_unsync" and len(sp["tmax"]) > 6)]
+        if not hosts:
+            left.append((name, integs, fn))
+            continue
+        i = min(hosts, key=lambda j: load[j])
+        fn(rng, items[i][1])
+        items[i][1].setdefault("folded", []).append(name)
+        load[i] += 1
+    return left
+
+
 def scenarios(c):
     """server scenarios: (tag, spec, job parameters)"""
     rng = c.rng.fork()
@@ -857,27 +1336,40 @@ def scenarios(c):
            "leapfrog": (170, 0.01, 1.5), "sei": (200, 0.01, 1.3)}
     sizes = {k: v[0] for k, v in tab.items()}
     dts = {k: v[1] for k, v in tab.items()}
+    std = dict(max_bodies=14, client_sleep_ms=5.0, delay_prob=30, delay_max_us=1200)
 
-    def tm(integ, calls):
+    def tm(integ, calls, frac=1.0):
         N, dt, span = tab[integ]
         out, t = [], 0.0
         for k in range(calls):
-            t += dt * (int(span / dt * rng.uniform(0.6, 1.4)) + rng.uniform(0.15, 0.85))
+            t += dt * (int(span * frac / dt * rng.uniform(0.6, 1.4)) + rng.uniform(0.15, 0.85))
             out.append(t)
         return out
     integs = list(INTEGS)
     rng.shuffle(integs)
-    nmain = len(integs) if c.thorough else 7
+    nmain = len(integs) if c.thorough else 6
     # always whfast (default) first: the reference scenario
     integs.remove("whfast")
     integs = ["whfast"] + integs
+    plain = []
     for integ in integs[:nmain]:
-        sp = dict(integ=integ, N=sizes[integ], dt=dts[integ], seed=rng.randint(1, 10 ** 6), tmax=tm(integ, rng.randint(3, 5)))
-        S.append(("many-calls", sp, dict(max_bodies=14, client_sleep_ms=6.0, delay_prob=40, delay_max_us=1500)))
+        sp = dict(integ=integ, N=sizes[integ], dt=dts[integ], seed=rng.randint(1, 10 ** 6), tmax=tm(integ, rng.randint(3, 5)),
+                  eft=rng.choice([1, 1, 0]))
+        plain.append(("many-calls", sp, dict(max_bodies=14, client_sleep_ms=6.0, delay_prob=40, delay_max_us=1500, hb=rng.chance(0.3))))
     # one long call: the middle of the loop, nearly all bodies away from the last-step windows
-    for integ in (["whfast", "leapfrog", "ias15", "saba", "janus"] if c.thorough else [rng.choice(["leapfrog", "saba", "janus"]), "whfast"]):
+    for integ in (["whfast", "leapfrog", "ias15", "saba", "janus", "bs"] if c.thorough else [rng.choice(["leapfrog", "saba", "janus"]), "ias15"]):
         sp = dict(integ=integ, N=sizes[integ], dt=dts[integ], seed=rng.randint(1, 10 ** 6), tmax=[tab[integ][2] * 4.13])
-        S.append(("one-long-call", sp, dict(max_bodies=14, client_sleep_ms=4.0, delay_prob=25, delay_max_us=800)))
+        plain.append(("one-long-call", sp, dict(max_bodies=14, client_sleep_ms=4.0, delay_prob=25, delay_max_us=800, hb=rng.chance(0.3))))
+    S += plain
+    # integrate() in short bursts (a few steps per call): nearly every boundary is a last-step boundary (F18a density)
+    for integ in (["whfast", "ias15", "leapfrog", "mercurius"] if c.thorough else [rng.choice(["whfast", "leapfrog"])]):
+        dt = dts[integ]
+        t, tms = 0.0, []
+        for k in range(rng.randint(25, 40)):
+            t += dt * (rng.randint(2, 5) + rng.uniform(0.1, 0.9)) if integ != "ias15" else rng.uniform(0.3, 0.9)
+            tms.append(t)
+        sp = dict(integ=integ, N=sizes[integ], dt=dt, seed=rng.randint(1, 10 ** 6), tmax=tms)
+        S.append(("bursts", sp, dict(max_bodies=16, client_sleep_ms=2.0, delay_prob=30, delay_max_us=800, hb=True)))
     # unsynchronised WHFast, larger N: reb_check_exit / epilogue synchronise outside the lock (F18 torn read)
     sp = dict(integ="whfast", N=1200 if not c.thorough else 2500, dt=0.01, seed=rng.randint(1, 10 ** 6), safe=0, mp=1e-9,
               tmax=[0.01 * (3 * (k + 1) + 0.5) for k in range(10)])
@@ -888,31 +1380,59 @@ def scenarios(c):
     vlist = [(i, v) for i in VAR_OK for v in VAR_OK[i]]
     rng.shuffle(vlist)
     vsel = [x for x in vlist if x[0] == "ias15"] + [x for x in vlist if x[0] != "ias15"]     # IAS15: all three kinds, always
-    for integ, var in (vsel if c.thorough else vsel[:5]):
+    for vi, (integ, var) in enumerate(vsel if c.thorough else vsel[:4]):
         N, dt, span = vtab[integ]
         tms, t = [], 0.0
         for k in range(rng.randint(2, 4)):
             t += dt * (int(span / dt * rng.uniform(0.6, 1.4)) + rng.uniform(0.15, 0.85))
             tms.append(t)
         sp = dict(integ=integ, N=N, dt=dt, seed=rng.randint(1, 10 ** 6), tmax=tms, var=var, eft=rng.choice([0, 1]))
-        if rng.chance(0.4):
+        if vi == 0 or rng.chance(0.4):
             sp["testp"], sp["tpt"] = rng.randint(1, 3), rng.choice([0, 1])
-        S.append(("variational", sp, dict(max_bodies=14, client_sleep_ms=5.0, delay_prob=30, delay_max_us=1200)))
+        S.append(("variational", sp, dict(std)))
     for integ in (["mercurius", "trace"] if c.thorough else [rng.choice(["mercurius", "trace"])]):
         sp = dict(integ=integ, N=7, dt=0.03, seed=rng.randint(1, 10 ** 6), enc=1, testp=2, tpt=0,
                   tmax=[0.03 * (900 * (k + 1) + 0.4 * (k + 1)) for k in range(3)], eft=1)
-        S.append(("encounter", sp, dict(max_bodies=14, client_sleep_ms=5.0, delay_prob=30, delay_max_us=1200)))
+        S.append(("encounter", sp, dict(std)))
     tp = [i for i in TESTP_OK if i not in ("mercurius", "trace")]
     rng.shuffle(tp)
-    for integ in (tp if c.thorough else tp[:2]):
+    tps = []
+    for ti, integ in enumerate(tp if c.thorough else tp[:2]):
         sp = dict(integ=integ, N=sizes[integ] // 2 + 4, dt=dts[integ], seed=rng.randint(1, 10 ** 6), tmax=tm(integ, rng.randint(2, 3)),
-                  testp=rng.randint(2, 4), tpt=rng.choice([0, 1]), eft=rng.choice([0, 1]), safe=rng.choice([1, 0]) if integ == "whfast" else 1)
-        S.append(("test-particles", sp, dict(max_bodies=12, client_sleep_ms=5.0, delay_prob=30, delay_max_us=1200)))
+                  testp=rng.randint(2, 4), tpt=ti % 2, eft=rng.choice([0, 1]), safe=rng.choice([1, 0]) if integ == "whfast" else 1)
+        tps.append(("test-particles", sp, dict(max_bodies=12, client_sleep_ms=5.0, delay_prob=30, delay_max_us=1200)))
+    S += tps
+    # collisions resolved by merging (N decreases while requests are served), direct and tree search, tree gravity
+    for kind, integ in ([("direct", "ias15"), ("direct", "mercurius"), ("tree", "leapfrog"), ("tree-gravity", "leapfrog"), ("tree-gravity", "ias15")]
+                        if c.thorough else [rng.choice([("direct", "ias15"), ("direct", "leapfrog")]), ("tree-gravity", "leapfrog")]):
+        sp = dict(integ=integ, N=60, dt=0.01, seed=rng.randint(1, 10 ** 6), coll=kind, tmax=[0.01 * (120 * (k + 1) + 0.5) for k in range(3)])
+        S.append(("collisions", sp, dict(std)))
+    # Simulationarchive auto-snapshots in the same run: two writers of serialisations (archive heartbeat and server)
+    for integ in (["whfast", "ias15", "mercurius", "leapfrog"] if c.thorough else [rng.choice(["whfast", "ias15"])]):
+        sp = dict(integ=integ, N=sizes[integ] // 2, dt=dts[integ], seed=rng.randint(1, 10 ** 6), tmax=tm(integ, rng.randint(2, 3)),
+                  sa=rng.randint(7, 23), safe=rng.choice([1, 0]) if integ == "whfast" else 1)
+        S.append(("archive", sp, dict(std)))
+    # /keyboard commands (pause, single steps, resume; quit and re-enter) racing with /simulation requests
+    for quit_ in ([False, True, True] if c.thorough else [True]):
+        integ = rng.choice(["whfast", "leapfrog"])
+        sp = dict(integ=integ, N=sizes[integ], dt=dts[integ], seed=rng.randint(1, 10 ** 6), tmax=tm(integ, 2, 2.0))
+        S.append(("keyboard", sp, dict(std, keyboard=({"rounds": 3, "quit": True} if quit_ else {"rounds": 3}), delay_prob=10)))
+    # the server is started before and stopped after every integrate() call while the client keeps knocking
+    for integ in (["whfast", "ias15", "leapfrog"] if c.thorough else [rng.choice(["whfast", "ias15", "leapfrog"])]):
+        sp = dict(integ=integ, N=sizes[integ], dt=dts[integ], seed=rng.randint(1, 10 ** 6), tmax=tm(integ, 5, 0.5))
+        S.append(("restart", sp, dict(std, restart=True, max_bodies=20, client_sleep_ms=1.0)))
+    # several simulations, each with its own server on its own port, integrating in parallel threads of one process
+    for rep in range(2 if c.thorough else 1):
+        ms = list(INTEGS)
+        rng.shuffle(ms)
+        specs = [dict(integ=i, N=sizes[i] // 2 + 3, dt=dts[i], seed=rng.randint(1, 10 ** 6), tmax=tm(i, rng.randint(2, 3)), eft=rng.choice([0, 1]))
+                 for i in ms[:(5 if c.thorough else 3)]]
+        S.append(("multi-server", specs[0], dict(std, specs=specs, max_bodies=8)))
     # the server is started AFTER integrate() has been entered: (a) while the simulation idles PAUSED inside reb_check_exit and
     # is then resumed with the space key, (b) from another thread at a random phase of the running loop
     late = list(INTEGS)
     rng.shuffle(late)
-    nl = len(late) if c.thorough else 3
+    nl = len(late) if c.thorough else 2
     for integ in late[:nl]:
         sp = dict(integ=integ, N=sizes[integ], dt=dts[integ], seed=rng.randint(1, 10 ** 6), tmax=tm(integ, rng.randint(2, 4)))
         S.append(("late-start-paused", sp, dict(max_bodies=14, client_sleep_ms=5.0, delay_prob=30, delay_max_us=1200, start="paused",
@@ -930,7 +1450,122 @@ def scenarios(c):
     # no request at all: the trace of the integrator alone with the server thread idle
     sp = dict(integ="leapfrog", N=50, dt=0.01, seed=rng.randint(1, 10 ** 6), tmax=[0.205, 0.417])
     S.append(("no-requests", sp, dict(max_bodies=0, client_sleep_ms=1.0, delay_prob=0, delay_max_us=0)))
+    # the option / role / time dimensions are folded onto the ordinary scenarios; what finds no host gets its own scenario
+    left = fold_dims(rng, plain + tps, per_item=2)
+    for name, integs_, fn in left:
+        integ = rng.choice(list(integs_))
+        sp = dict(integ=integ, N=sizes[integ] // 2 + 2, dt=dts[integ], seed=rng.randint(1, 10 ** 6), tmax=tm(integ, 2, 0.6))
+        fn(rng, sp)
+        sp["folded"] = [name]
+        S.append(("option", sp, dict(max_bodies=8, client_sleep_ms=4.0, delay_prob=30, delay_max_us=1200)))
     return S
+
+
+def one_scenario(d, exe, shim, offs, ptime, deadline, si, nS, tag, sp, jp, seed, mrng, log):
+    """run + validate + analyse one server scenario; touches no shared state (several run concurrently).
+    -> dict(rec=Rec with the violations/counts/samples, not_ex, stats, dims, evhist, overlap, verdict, meta, mutants, racy, cov)"""
+    R = Rec()
+    L = dict(rec=R, not_ex=[], stats={}, dims={}, evhist={}, overlap=0, verdict=None, meta=None, mutants=[], racy=False, cov={})
+    what = "%d/%d %s %s N=%d%s" % (si + 1, nS, tag, sp["integ"], sp["N"], (" +" + ",".join(sp["folded"])) if sp.get("folded") else "")
+    if time.time() > deadline:
+        L["not_ex"].append({"phase": "server scenario " + what, "reason": "time budget of the tier used up"})
+        return L
+    log("scenario", what)
+    job = dict(spec=sp, offs=offs, delay_seed=seed, server=True, **jp)
+    st, res, tail = run_phase(None, d, "--worker", job, shim=shim, timeout=ptime, what=what)
+    if st == "died":
+        # the process was killed by a signal on both attempts: a reproducible crash is a failing input
+        R.violation("crash-while-serving", "process died (rc=%s) twice while integrating %s with the server answering /simulation"
+                    % (res.get("rc"), sp["integ"]), dict(spec=sp, scenario=tag, stderr=tail[-600:]))
+        return L
+    if st != "ok":
+        L["not_ex"].append({"phase": "server scenario " + what, "reason": "%s: %s" % (st, res.get("infra") or tail[-300:])})
+        return L
+    if res.get("errors"):
+        L["not_ex"].append({"phase": "server scenario " + what, "reason": "HTTP client error: %s" % res["errors"][:2]})
+        return L
+
+    def analyse(sp_u, run_out, racy, label):
+        ajob = dict(spec=sp_u, tag=tag, racy=list(racy) if racy else None, run_out=run_out, offs=offs)
+        st_, ares, tail_ = run_phase(None, d, "--analyse", ajob, timeout=ptime, what=label)
+        if st_ != "ok":
+            L["not_ex"].append({"phase": "analysis of the served bodies of " + label, "reason": "%s: %s" % (st_, tail_[-300:])})
+            return
+        R.events += ares.get("events", [])
+        for k, v in ares.get("stats", {}).items():
+            L["stats"][k] = L["stats"].get(k, 0) + v
+        for dn in dims_of(tag, sp_u, jp):
+            L["dims"][dn] = L["dims"].get(dn, 0) + 1
+        for k, v in ares.get("cov", {}).items():
+            L["cov"].setdefault(k, [])
+            L["cov"][k] += v
+    units = jp.get("specs")
+    if units or jp.get("restart"):
+        # no trace (several simulations / the server is stopped and restarted: outside the model): search only
+        for ui, sp_u in enumerate(units or [sp]):
+            analyse(sp_u, os.path.join(res["out"], "u%d" % ui) if units else res["out"], None, what + " unit %d" % ui)
+        R.count(("no-trace", tag, sp["integ"]))
+        if jp.get("restart"):
+            L["stats"]["stop_server_cycles"] = res.get("stop_cycles", 0)
+        return L
+    cnt = res.get("counts", {})
+    if cnt.get("iStepBegin", 0) != res["steps_done"] or cnt.get("sSerBegin", 0) < res["nbodies"] or \
+            cnt.get("iChkBegin", 0) == 0 or (cnt.get("iLock", 0) == 0 and cnt.get("sLock", 0) == 0 and res["nbodies"] > 0):
+        # the shim did not see the library's calls (PLT interposition ineffective): cannot validate
+        raise Infra("shim blind in %s: counts %s steps_done %d bodies %d" % (what, cnt, res["steps_done"], res["nbodies"]))
+    toks = open(os.path.join(res["out"], "trace.txt")).read().split()
+    for t in toks:
+        L["evhist"][t.split(":")[0]] = L["evhist"].get(t.split(":")[0], 0) + 1
+    # how many serialisations overlapped an unlocked write of r (F18 window) in this trace?
+    inser = inadj = hit = False
+    for t in toks:
+        t = t.split(":")[0]
+        if t == "sSerBegin":
+            inser, hit = True, inadj
+        elif t == "sSerEnd":
+            L["overlap"] += 1 if hit else 0
+            inser = hit = False
+        elif t in ("iChkSync", "iEpiSync", "iEnter"):
+            inadj = True
+            hit = hit or inser
+        elif t in ("iChkBegin", "iChkEnd1", "iChkEnd0", "iLeave"):
+            inadj = False
+    verdict = run_driver(exe, ["A tr%d " % si + " ".join(toks)], timeout=60)
+    if len(verdict) != 1:
+        raise Infra("drv_c19 gave no verdict")
+    f = verdict[0].split()
+    racy = None
+    if len(f) >= 10 and f[1] == "ACCEPT":
+        n0 = 0
+        for t in toks:
+            if t == "xStart":
+                break
+            n0 += t == "iStepEnd"
+        racy = (f[8], n0)
+        L["racy"] = f[8] != "clean"
+    L["verdict"] = verdict[0]
+    L["meta"] = (tag, sp, res, len(toks))
+    if res.get("double_close", 0) > 0 or res.get("client_ebadf", 0) > 0:
+        L["stats"]["server_double_close_calls"] = res.get("double_close", 0)
+        L["stats"]["client_requests_hit_by_EBADF"] = res.get("client_ebadf", 0)
+        R.violation(F20, "reb_server_start closes every connection descriptor twice (fclose(stream); close(childfd)): %d times in this run; "
+                    "the second close() closes whatever descriptor another thread opened in between (%d client sockets lost here)"
+                    % (res.get("double_close", 0), res.get("client_ebadf", 0)), dict(spec=sp, scenario=tag))
+    L["stats"]["during_integration"] = res.get("bodies_during_integration", 0)
+    if res.get("heartbeat_calls") is not None:
+        L["stats"]["heartbeat_callback_calls"] = res["heartbeat_calls"]
+    if jp.get("keyboard"):
+        L["stats"]["integrate_calls_in_keyboard_scenarios"] = res.get("integrate_calls", 0)
+    R.count(("trace", tag, sp["integ"]), nontrivial=res["nbodies"] > 0)
+    if racy is not None and racy[0] == "clean":
+        for name, mt in mutants(toks, mrng):
+            L["mutants"].append(("A mu%d_%s " % (si, name) + " ".join(mt), (si, name)))
+    if si < 3:
+        R.sample({"scenario": tag, "integrator": sp["integ"], "N": sp["N"], "events": len(toks), "bodies": res["nbodies"],
+                  "steps": res["steps_done"], "trace_head": " ".join(toks[:40])})
+    # search (ii) on the bodies of this scenario, in its own process
+    analyse(sp, res["out"], racy, what)
+    return L
 
 
 def server_part(c, d, exe, shim, offs, boost, deadline):
@@ -946,86 +1581,41 @@ def server_part(c, d, exe, shim, offs, boost, deadline):
     ntr = 0
     not_ex = c.cov.setdefault("not_exercised", [])
     ptime = 150 if c.thorough else 75
-    for si, (tag, sp, jp) in enumerate(S):
-        what = "%d/%d %s %s N=%d" % (si + 1, len(S), tag, sp["integ"], sp["N"])
-        if time.time() > deadline:
-            not_ex.append({"phase": "server scenario " + what, "reason": "time budget of the tier used up"})
-            continue
-        c.log("scenario", what)
-        job = dict(spec=sp, offs=offs, delay_seed=c.rng.randint(1, 2 ** 31), server=True, **jp)
-        st, res, tail = run_phase(c, d, "--worker", job, shim=shim, timeout=ptime, what=what)
-        if st == "died":
-            # the process was killed by a signal on both attempts: a reproducible crash is a failing input
-            c.violation("crash-while-serving", "process died (rc=%s) twice while integrating %s with the server answering /simulation"
-                        % (res.get("rc"), sp["integ"]), dict(spec=sp, scenario=tag, stderr=tail[-600:]))
-            continue
-        if st != "ok":
-            not_ex.append({"phase": "server scenario " + what, "reason": "%s: %s" % (st, res.get("infra") or tail[-300:])})
-            continue
-        if res.get("errors"):
-            not_ex.append({"phase": "server scenario " + what, "reason": "HTTP client error: %s" % res["errors"][:2]})
-            continue
-        cnt = res.get("counts", {})
-        if cnt.get("iStepBegin", 0) != res["steps_done"] or cnt.get("sSerBegin", 0) < res["nbodies"] or \
-                cnt.get("iChkBegin", 0) == 0 or (cnt.get("iLock", 0) == 0 and cnt.get("sLock", 0) == 0 and res["nbodies"] > 0):
-            # the shim did not see the library's calls (PLT interposition ineffective): cannot validate
-            raise Infra("shim blind in %s: counts %s steps_done %d bodies %d" % (what, cnt, res["steps_done"], res["nbodies"]))
-        toks = open(os.path.join(res["out"], "trace.txt")).read().split()
-        for t in toks:
-            evhist[t.split(":")[0]] = evhist.get(t.split(":")[0], 0) + 1
-        # how many serialisations overlapped an unlocked write of r (F18 window) in this trace?
-        inser = inadj = hit = False
-        for t in toks:
-            t = t.split(":")[0]
-            if t == "sSerBegin":
-                inser, hit = True, inadj
-            elif t == "sSerEnd":
-                overlap += 1 if hit else 0
-                inser = hit = False
-            elif t in ("iChkSync", "iEpiSync", "iEnter"):
-                inadj = True
-                hit = hit or inser
-            elif t in ("iChkBegin", "iChkEnd1", "iChkEnd0", "iLeave"):
-                inadj = False
-        line = "A tr%d " % si + " ".join(toks)
-        verdict = run_driver(exe, [line], timeout=60)
-        if len(verdict) != 1:
-            raise Infra("drv_c19 gave no verdict")
-        f = verdict[0].split()
-        racy = None
-        if len(f) >= 10 and f[1] == "ACCEPT":
-            n0 = 0
-            for t in toks:
-                if t == "xStart":
-                    break
-                n0 += t == "iStepEnd"
-            racy = (f[8], n0)
-            if f[8] != "clean":
-                nracy += 1
-        verdicts.append(verdict[0])
-        metas.append((tag, sp, res, len(toks)))
-        ntr += 1
-        stats["during_integration"] += res.get("bodies_during_integration", 0)
-        c.count(("trace", tag, sp["integ"]), nontrivial=res["nbodies"] > 0)
-        if racy is not None and racy[0] == "clean":
-            for name, mt in mutants(toks, c.rng):
-                mutlines.append("A mu%d_%s " % (si, name) + " ".join(mt))
-                mutmeta.append((si, name))
-        if si < 3:
-            c.sample({"scenario": tag, "integrator": sp["integ"], "N": sp["N"], "events": len(toks), "bodies": res["nbodies"],
-                      "steps": res["steps_done"], "trace_head": " ".join(toks[:40])})
-        # search (ii) on the bodies of this scenario, in its own process
-        ajob = dict(spec=sp, tag=tag, racy=list(racy) if racy else None, run_out=res["out"], offs=offs)
-        st, ares, tail = run_phase(c, d, "--analyse", ajob, timeout=ptime, what=what)
-        if st != "ok":
-            not_ex.append({"phase": "analysis of the served bodies of " + what, "reason": "%s: %s" % (st, tail[-300:])})
-            continue
-        replay_events(c, ares.get("events", []))
-        for k, v in ares.get("stats", {}).items():
+    planned = c.cov.setdefault("dimensions_planned", {})
+    dims = c.cov.setdefault("dimensions", {})
+    for tag, sp, jp in S:
+        for sp_ in (jp.get("specs") or [sp]):
+            for dn in dims_of(tag, sp_, jp):
+                planned[dn] = planned.get(dn, 0) + 1
+    # independent processes: a few scenarios at a time (results are merged in the order of the plan)
+    seeds = [(c.rng.randint(1, 2 ** 31), c.rng.fork()) for _ in S]
+    width = max(1, min(3, (os.cpu_count() or 2) // 2, len(os.sched_getaffinity(0))))
+    c.cov["scenarios_run_concurrently"] = width
+    with ThreadPoolExecutor(width) as ex:
+        futs = [ex.submit(one_scenario, d, exe, shim, offs, ptime, deadline, si, len(S), tag, sp, jp, seeds[si][0], seeds[si][1], c.log)
+                for si, (tag, sp, jp) in enumerate(S)]
+        results = [f.result() for f in futs]
+    for L in results:
+        not_ex += L["not_ex"]
+        replay_events(c, L["rec"].events)
+        for k, v in L["stats"].items():
             stats[k] = stats.get(k, 0) + v
-        for k, v in ares.get("cov", {}).items():
+        for k, v in L["dims"].items():
+            dims[k] = dims.get(k, 0) + v
+        for k, v in L["evhist"].items():
+            evhist[k] = evhist.get(k, 0) + v
+        for k, v in L["cov"].items():
             c.cov.setdefault(k, [])
             c.cov[k] += v
+        overlap += L["overlap"]
+        nracy += 1 if L["racy"] else 0
+        if L["verdict"] is not None:
+            verdicts.append(L["verdict"])
+            metas.append(L["meta"])
+            ntr += 1
+        for line, mm in L["mutants"]:
+            mutlines.append(line)
+            mutmeta.append(mm)
     got = verdicts + (run_driver(exe, mutlines, timeout=120) if mutlines else [])
     lines = verdicts
     if len(got) != len(lines) + len(mutlines):
@@ -1075,48 +1665,82 @@ def par_specs(c, k, same=None):
         n1, n2 = rng.randint(20, 60), rng.randint(20, 60)
         sp = dict(integ=integ, N=sizes[integ] + rng.randint(0, 6), dt=dt, seed=rng.randint(1, 10 ** 6),
                   tmax=[dt * (n1 + 0.3), dt * (n1 + n2 + 0.7)], safe=rng.choice([1, 1, 0]))
-        if integ == "whfast" and rng.chance(0.4):
-            sp["corrector"] = rng.choice([3, 5, 11])
         sp["rngp"] = 1
         sp["eft"] = rng.choice([1, 0])
-        if integ in VAR_OK and rng.chance(0.6):
+        kind = rng.randint(0, 9)
+        if kind <= 2 and integ in VAR_OK:
             sp["var"] = rng.choice(VAR_OK[integ])
             sp["safe"] = 1 if integ != "whfast" else sp["safe"]
-        if integ in TESTP_OK and rng.chance(0.4):
+            if integ in TESTP_OK and rng.chance(0.4):
+                sp["testp"] = rng.randint(1, 3)
+                sp["tpt"] = rng.choice([0, 0, 1])
+        elif kind == 3 and integ in TESTP_OK:
             sp["testp"] = rng.randint(1, 3)
-            sp["tpt"] = rng.choice([0, 0, 1])
-        if integ in ("mercurius", "trace") and rng.chance(0.5):
+            sp["tpt"] = rng.choice([0, 1])
+        elif kind == 4 and integ in ("mercurius", "trace"):
             sp["enc"] = 1
             sp["dt"] = 0.03
             sp["N"] = 6 + rng.randint(0, 3)
             sp["tmax"] = [0.03 * (n1 * 3 + 0.3), 0.03 * ((n1 + n2) * 3 + 0.7)]
+        elif kind == 5 and integ in ("ias15", "leapfrog", "mercurius"):
+            # collisions + merges (N changes between the serialisations), direct / tree search, tree gravity
+            sp["coll"] = rng.choice(["direct", "direct", "tree", "tree-gravity"]) if integ != "mercurius" else "direct"
+            sp["N"] = 40 + rng.randint(0, 20)
+            sp["dt"] = 0.01
+            sp["tmax"] = [0.01 * (n1 * 2 + 0.3), 0.01 * ((n1 + n2) * 2 + 0.7)]
+            sp["rngp"] = 0
+        elif kind == 6:
+            sp["sa"] = rng.randint(5, 15)          # write an archive, restore a random snapshot of it (in parallel: file handles)
         out.append(sp)
+    # every foldable option / role / time dimension on some task
+    items = [("par", sp, {}) for sp in out if not sp.get("coll")]
+    fold_dims(rng, items, per_item=1)
     return out
 
 
 def par_task(rebound, fmt, sp, tmpdir, ident):
     """create, advance, copy, save, load, advance all three + a twin that is never serialised:
-    canonical final states of (loaded, copy, serialised original) and the fields in which the serialised original differs
-    from the never-serialised twin (must be none: serialising must not alter the trajectory)"""
+    canonical final states of (loaded, copy, serialised original[, restored from an archive snapshot]) and the fields in which
+    the serialised original differs from the never-serialised twin (must be none: serialising must not alter the trajectory)"""
     sim = make_sim(rebound, sp)
+    afn = os.path.join(tmpdir, "arch_%s.bin" % ident)
+    attach_archive(sim, sp, afn)
     integ_to(sim, sp, sp["tmax"][0])
     cp = sim.copy()
+    install_callbacks(cp, sp)
     fn = os.path.join(tmpdir, "par_%s.bin" % ident)
-    sim.save_to_file(fn, delete_file=True)
+    # (reb_simulation_save_to_file; Simulation.save_to_file would re-point the archive of an `sa` task to this file)
+    buf = sim_bytes(rebound, sim)
+    with open(fn, "wb") as f:
+        f.write(buf)
     ld = rebound.Simulation(fn)
+    install_callbacks(ld, sp)
     integ_to(sim, sp, sp["tmax"][1])
     integ_to(ld, sp, sp["tmax"][1])
     integ_to(cp, sp, sp["tmax"][1])
+    extra = None
+    if sp.get("sa"):
+        # restore a snapshot from the archive written so far (another open file per thread) and continue it
+        A = rebound.Simulationarchive(afn)
+        k = (sp["seed"] % max(1, len(A) - 1)) if len(A) > 1 else 0
+        rs = A[k]
+        install_callbacks(rs, sp)
+        integ_to(rs, sp, sp["tmax"][1])
+        extra = fmt.canon(sim_bytes(rebound, rs), ("status",))
+        del rs, A
     plain = make_sim(rebound, sp)
+    attach_archive(plain, sp, afn + ".twin")
     integ_to(plain, sp, sp["tmax"][0])
     integ_to(plain, sp, sp["tmax"][1])
     a = fmt.canon(sim_bytes(rebound, ld), ("status",))
     b = fmt.canon(sim_bytes(rebound, cp), ("status",))
     o = fmt.canon(sim_bytes(rebound, sim), ("status",))
     pl = fmt.canon(sim_bytes(rebound, plain), ("status",))
-    os.remove(fn)
+    for f_ in (fn, afn, afn + ".twin"):
+        if os.path.exists(f_):
+            os.remove(f_)
     del ld, cp, sim, plain
-    return a, b, o, (Fmt.diff(o, pl) if o is not None and pl is not None else ["#unparsable"])
+    return a, b, o, (Fmt.diff(o, pl) if o is not None and pl is not None else ["#unparsable"]), extra
 
 
 def parallel_run(c, rebound, fmt, reps_specs, outdir):
@@ -1125,6 +1749,7 @@ def parallel_run(c, rebound, fmt, reps_specs, outdir):
     k = len(reps_specs[0][1])
     reps = len(reps_specs)
     nmis = nneut = nvar = 0
+    dims = {}
     overl = []
     for rep, (same, specs) in enumerate(reps_specs):
         progress("parallel repetition", rep, "of", reps, "same-type" if same else "mixed")
@@ -1171,7 +1796,13 @@ def parallel_run(c, rebound, fmt, reps_specs, outdir):
                                 "never-serialised twin (N constant): fields %s" % (sp["integ"], ", var " + sp["var"] if sp.get("var") else "", res_i[3][:6]),
                                 dict(spec=sp, rep=rep, run=where, fields=res_i[3][:10]))
                     break
-            for which, (x, y) in enumerate(zip(seq[i][:3], par[i][:3])):
+            for dn in dims_of("par", sp):
+                dims[dn] = dims.get(dn, 0) + 1
+            dims["histories: copy / save / load mid-run"] = dims.get("histories: copy / save / load mid-run", 0) + 1
+            if sp.get("sa"):
+                dims["histories: restore from an archive snapshot, in parallel threads"] = dims.get("histories: restore from an archive snapshot, in parallel threads", 0) + 1
+            pairs = list(zip(seq[i][:3], par[i][:3])) + ([(seq[i][4], par[i][4])] if sp.get("sa") else [])
+            for which, (x, y) in enumerate(pairs):
                 if x is None or y is None:
                     raise Infra("unparsable serialisation in the parallel test")
                 dd = Fmt.diff(x, y)
@@ -1180,10 +1811,31 @@ def parallel_run(c, rebound, fmt, reps_specs, outdir):
                     c.violation("concurrent-run-differs-from-sequential:" + sp["integ"],
                                 "simulation (%s) advanced concurrently with %d others ends in different bits than run alone: fields %s"
                                 % (sp["integ"], k - 1, dd[:6]),
-                                dict(spec=sp, rep=rep, same_type=same, which=["loaded", "copy", "serialised original"][which], fields=dd[:10]))
+                                dict(spec=sp, rep=rep, same_type=same, which=["loaded", "copy", "serialised original", "restored from archive"][which], fields=dd[:10]))
         if rep == 0:
             c.sample({"parallel_rep": 0, "specs": [dict(integ=s["integ"], N=s["N"], dt=s["dt"]) for s in specs[:4]]})
-    return {"repetitions": reps, "simulations_per_repetition": k, "mismatches": nmis,
+    # default rand_seed: tools.c:48 takes gettimeofday().tv_usec + getpid() at creation — two simulations created in the same
+    # microsecond get the same seed; measured, not a violation (the property is about simulations with given seeds)
+    seeds = []
+    clib = rebound.clibrebound
+    clib.reb_simulation_create.restype = ctypes.c_void_p
+    clib.reb_simulation_free.argtypes = [ctypes.c_void_p]
+    off = rebound.Simulation.rand_seed.offset
+
+    def mk():
+        loc = []
+        for _ in range(300):
+            r_ = clib.reb_simulation_create()
+            loc.append(ctypes.c_uint.from_address(r_ + off).value)
+            clib.reb_simulation_free(r_)
+        seeds.extend(loc)
+    ths = [threading.Thread(target=mk) for _ in range(8)]
+    for t in ths:
+        t.start()
+    for t in ths:
+        t.join(30)
+    return {"repetitions": reps, "simulations_per_repetition": k, "mismatches": nmis, "dimensions": dims,
+            "default_rand_seed": {"created_in_8_threads": len(seeds), "distinct": len(set(seeds))},
             "serialised_original_differs_from_never_serialised_twin": nneut, "tasks_with_variational_particles": nvar,
             "mean_overlapping_tasks": round(sum(overl) / max(1, len(overl)), 2)}
 
@@ -1201,7 +1853,13 @@ def parallel_part(c, d, offs, boost):
         # the differential runs are a mandatory part of the check
         raise Infra("parallel-vs-sequential runs did not complete (%s): %s" % (st, tail[-400:]))
     replay_events(c, res.get("events", []))
-    c.cov["parallel_vs_sequential"] = res["summary"]
+    summ = res["summary"]
+    dims = c.cov.setdefault("dimensions", {})
+    planned = c.cov.setdefault("dimensions_planned", {})
+    for dn, n in summ.pop("dimensions", {}).items():
+        dims[dn] = dims.get(dn, 0) + n
+        planned[dn] = planned.get(dn, 0) + n
+    c.cov["parallel_vs_sequential"] = summ
 
 
 # ---------------------------------------------------------------------------- thorough: ThreadSanitizer
@@ -1266,7 +1924,7 @@ def tsan_part(c, d):
             in_ser = ["reb_simulation_save_to_stream" in f or "reb_server_start" in f for f in fn]
             in_int = ["reb_simulation_integrate_raw" in f for f in fn]
             if "Location is file descriptor" in r and "client" in allf:
-                cat = "file descriptor number reused between the harness's client thread and the server thread (harness artefact)"
+                cat = "F20: connection descriptor closed twice by the server thread (fclose + close), number reused by another thread"
             elif not r.lstrip().startswith("data race"):
                 cat = "other: " + r.strip().splitlines()[0][:60]
                 unexpected.append(r[:1500])
@@ -1374,6 +2032,17 @@ def run(c):
         phase("tsan")
         tsan_part(c, d)
         c.log("tsan:", c.cov.get("tsan"))
+    # cross-cutting dimensions: every applicable one must have been PLANNED by the generators (else: broken obligation);
+    # planned but not evaluated can only be environmental (recorded as not exercised)
+    planned = c.cov.get("dimensions_planned", {})
+    dims = c.cov.get("dimensions", {})
+    for dn in APPLICABLE_DIMENSIONS:
+        dims.setdefault(dn, 0)
+        if planned.get(dn, 0) == 0:
+            c.broken.append("dimension not covered: " + dn)
+        elif dims[dn] == 0:
+            c.cov["not_exercised"].append({"phase": "dimension " + dn, "reason": "planned %d cases, none completed" % planned[dn]})
+    c.cov["dimensions"] = dict(sorted(dims.items()))
     ne = c.cov.get("not_exercised", [])
     if ne:
         # environmental: recorded, not fatal (the proofs, the tables and the differential runs above did run)
